@@ -4,6 +4,8 @@ package main
 
 import (
 	"fmt"
+	"go/token"
+	"sort"
 	"strings"
 	"unicode/utf8"
 
@@ -13,7 +15,7 @@ import (
 func init() {
 	register("C19",
 		"nothing of note beyond AX-YEAR (years outside 0..9999 print wider) and the ranges of month/day/hour/minute/second, which R07.2 establishes at the only allocation site of Solar; a re-implementation of ToYmd/ToYmdHms that is not a single Sprintf is reported as undecided (fails) even if it is correct.",
-		r19_1, r19_2, r19_3, r19_4, r17_1)
+		r19_1, r19_2, r19_3, r19_4, r17_1, r19_5)
 }
 
 func r19_1(c *Ctx, r *Report) {
@@ -59,7 +61,7 @@ func r19_1(c *Ctx, r *Report) {
 
 func r19_2(c *Ctx, r *Report) {
 	const rule = "R19.2"
-	r.rule(rule, "Injective name tables. NUMBER[0..9] are ten distinct single runes; MONTH[1..12] and DAY[1..30] are distinct and non-empty; no month or day name contains 年, 月 or 闰 (the separators of the Chinese rendering), so year digits, leap marker, month name and day name can be read back unambiguously; the Chinese renderings of Lunar, Tao and Foto are year digits + 年 + [闰] month + 月 + day.")
+	r.rule(rule, "Injective name tables. NUMBER[0..9] are ten distinct single runes; MONTH[1..12] and DAY[1..30] are distinct and non-empty; no month or day name contains 年, 月 or 闰 (the separators of the Chinese rendering), so year digits, leap marker, month name and day name can be read back unambiguously; the Chinese renderings of Lunar, Tao and Foto, followed by the evaluator for a spread of years, every month (leap or not) and every day, are the digits of the object's own year (its GetYear under the same inputs) through NUMBER + 年 + [闰] + MONTH[|month|] + 月 + DAY[day].")
 	num := c.tabStrs(r, rule, "LunarUtil", "NUMBER")
 	if num != nil {
 		okk := len(num) >= 10
@@ -112,52 +114,80 @@ func r19_2(c *Ctx, r *Report) {
 		}
 		r.check(len(amb) == 0, rule, "LunarUtil.DAY names all have two runes and differ", c.pos(c.tables.pos("LunarUtil", "DAY")), strings.Join(amb, " "))
 	}
-	// shape of the renderings: followed by the evaluator with the three Chinese renderings as abstract strings
+	// the renderings themselves: followed by the evaluator for a spread of years, every month (leap or not) and
+	// every day; the year rendered is the object's own year (its GetYear, followed with the same inputs)
+	months, days := c.tabStrs(r, rule, "LunarUtil", "MONTH"), c.tabStrs(r, rule, "LunarUtil", "DAY")
 	for _, name := range []string{"calendar.(*Lunar).String", "calendar.(*Tao).ToString", "calendar.(*Foto).ToString"} {
 		fn := c.Fn(r, rule, name)
-		if fn == nil {
+		if fn == nil || len(fn.Params) != 1 || len(num) < 10 || len(months) != 13 || len(days) != 31 {
 			continue
 		}
-		leaf := func(fr *evalFrame, v ssa.Value) (interface{}, bool) {
-			call, ok := v.(*ssa.Call)
-			if !ok || call.Common().StaticCallee() == nil || len(call.Common().Args) != 1 {
-				return nil, false
-			}
-			part := ""
-			switch call.Common().StaticCallee().Name() {
-			case "GetYearInChinese":
-				part = "Y"
-			case "GetMonthInChinese":
-				part = "M"
-			case "GetDayInChinese":
-				part = "D"
-			default:
-				return nil, false
-			}
-			// whose rendering: the object's own, or that of the lunar date it wraps
-			who := "?"
-			ofr, o := fr.origin(call.Common().Args[0])
-			if ofr.parent == nil && o == ssa.Value(fn.Params[0]) {
-				who = "own"
-			} else if rc, f, ok := getterField(c, o); ok && strings.HasSuffix(f, ".lunar") {
-				if ofr2, o2 := ofr.origin(rc); ofr2.parent == nil && o2 == ssa.Value(fn.Params[0]) {
-					who = "lunar"
+		yearFn := c.FuncBy[strings.TrimSuffix(strings.TrimSuffix(name, "ToString"), "String")+"GetYear"]
+		if yearFn == nil {
+			r.bad(rule, name+" renders year 年 [闰] month 月 day", c.fnPos(fn), "the type has no GetYear (undecided = fail)")
+			continue
+		}
+		var bad []string
+		n := 0
+		for _, y := range []int64{1, 9, 10, 99, 100, 1900, 2024, 9999} {
+			for m := int64(-12); m <= 12; m++ {
+				if m == 0 {
+					continue
+				}
+				for d := int64(1); d <= 30 && len(bad) < 4; d++ {
+					leaf := func(fr *evalFrame, v ssa.Value) (interface{}, bool) {
+						if _, f, ok := getterField(c, v); ok {
+							switch {
+							case f == "Lunar.year":
+								return y, true
+							case f == "Lunar.month":
+								return m, true
+							case f == "Lunar.day":
+								return d, true
+							case strings.HasSuffix(f, ".lunar"):
+								return absPtr{"lunar", false}, true
+							}
+						}
+						return nil, false
+					}
+					own := y
+					if yearFn != nil {
+						ev := &evaluator{leaf: leaf, inline: inlineLibrary}
+						if res, outcome := ev.run(yearFn, nil, nil, nil, nil); outcome == "return" && len(res) == 1 {
+							if k, isI := res[0].(int64); isI {
+								own = k
+							}
+						}
+					}
+					want := ""
+					for _, ch := range fmt.Sprint(own) {
+						if ch >= '0' && ch <= '9' {
+							want += num[ch-'0']
+						} else {
+							want += string(ch)
+						}
+					}
+					want += "年"
+					am := m
+					if m < 0 {
+						want += "闰"
+						am = -m
+					}
+					want += months[am] + "月" + days[d]
+					ev := &evaluator{leaf: leaf, inline: inlineLibrary, counted: 64}
+					res, outcome := ev.run(fn, nil, nil, nil, nil)
+					n++
+					got := outcome + " " + ev.fail
+					if outcome == "return" && len(res) == 1 {
+						got = fmt.Sprint(res[0])
+					}
+					if got != want {
+						bad = append(bad, fmt.Sprintf("lunar year %d (own year %d), month %d, day %d: %q, expected %q", y, own, m, d, got, want))
+					}
 				}
 			}
-			return "<" + part + ":" + who + ">", true
 		}
-		ev := &evaluator{inline: func(f *ssa.Function) bool {
-			n := f.Name()
-			return inlineLibrary(f) && n != "GetYearInChinese" && n != "GetMonthInChinese" && n != "GetDayInChinese"
-		}, leaf: leaf}
-		res, outcome := ev.run(fn, nil, nil, nil, nil)
-		got := outcome + " " + ev.fail
-		if outcome == "return" && len(res) == 1 {
-			got = fmt.Sprint(res[0])
-		}
-		// month and day of a Taoist/Buddhist date are those of its lunar date (R17.2): either rendering is the same string
-		norm := strings.NewReplacer("<M:lunar>", "<M:own>", "<D:lunar>", "<D:own>").Replace(got)
-		r.check(norm == "<Y:own>年<M:own>月<D:own>", rule, name+" renders year 年 month 月 day", c.fnPos(fn), "the evaluator reads the result as: "+got)
+		r.check(len(bad) == 0 && n == 8*24*30, rule, name+" renders year 年 [闰] month 月 day", c.fnPos(fn), fmt.Sprintf("%d cases (year x month x day); deviations: %v", n, headList(bad, 3)))
 	}
 	// the year digits: every decimal digit of the year through NUMBER, most significant first — the functions
 	// are followed for a spread of years (their digit loop as a table over the iteration number)
@@ -283,4 +313,43 @@ func r19_4(c *Ctx, r *Report) {
 		n := fn.Name()
 		return strings.Contains(n, "InChinese") || strings.Contains(n, "MonthName") || strings.HasSuffix(n, "String")
 	}, 8)
+}
+
+// R19.5: printing a date does not change it.
+func r19_5(c *Ctx, r *Report) {
+	const rule = "R19.5"
+	r.rule(rule, "Printing leaves the date alone. No rendering method of Solar, Lunar, Tao or Foto (String, ToString, ToFullString, ToYmd, ToYmdHms, Get*InChinese) stores — itself or through anything it calls (E2 effects) — to a year, month, day, hour, minute or second field of its receiver or of the date its receiver wraps: a rendering that rewrites the date it prints (say, flips the sign of a leap month) makes the printed text parse back to a date the object no longer holds, and the next printing of the same object different.")
+	dateField := map[string]bool{"year": true, "month": true, "day": true, "hour": true, "minute": true, "second": true}
+	isRenderer := func(n string) bool {
+		switch n {
+		case "String", "ToString", "ToFullString", "ToYmd", "ToYmdHms":
+			return true
+		}
+		return strings.HasPrefix(n, "Get") && strings.HasSuffix(n, "InChinese")
+	}
+	n := 0
+	for _, typ := range []string{"Solar", "Lunar", "Tao", "Foto"} {
+		for _, fn := range c.methodsOf("calendar", typ) {
+			if !isExported(fn.Name()) || !isRenderer(fn.Name()) {
+				continue
+			}
+			n++
+			var bad []string
+			var pos token.Pos
+			for _, l := range c.eff.Of(fn).Writes {
+				parts := strings.SplitN(l.Flat, ".", 2)
+				if l.Root == "p0" && len(parts) == 2 && dateField[parts[1]] {
+					bad = append(bad, "store to "+l.Flat+" in "+l.Via)
+					pos = l.Pos
+				}
+			}
+			if len(bad) > 0 {
+				sort.Strings(bad)
+				r.bad(rule, fname(fn)+" leaves the date it prints alone", c.pos(pos), strings.Join(dedupe(bad), "; "))
+			} else {
+				r.ok(rule, fname(fn)+" leaves the date it prints alone", c.fnPos(fn), "no store to a date field below the receiver")
+			}
+		}
+	}
+	r.floor(rule, 12)
 }
